@@ -9,33 +9,33 @@ CLAIMED = {
             "seeded simulation, reference-model refinement per step", "4 C01"),
     "C02": ("exploration", "DIFF world: the same generated (state, call) pairs and short histories on real Stdfs over a tmpfs sandbox and on Memfs; success/failure, returned values and the tree seen by an independent std::fs observer must agree",
             "seeded differential simulation against an independent disk observer", "4 C02"),
-    "C03": ("exploration", "integrity invariant on the complete internal state (hook H2, cross-checked against Display) after every step of seeded histories incl. failing and hostile calls, and at every quiescent point of CONC runs",
+    "C03": ("exploration", "integrity invariant on the complete internal state (hook H2, cross-checked against Display) after every step of seeded histories incl. failing and hostile calls; every 8th run is a scheduled concurrent program (CONC leg) checked at every quiescent point and at the end",
             "seeded simulation, invariant on full snapshot after every step", "4 C03"),
     "C04": ("exploration", "CONC world: 2-3 real client threads on one shared Memfs, every scheduling decision at guard acquisition / operation boundaries taken by a seeded controlled scheduler (writer-preferring lock model); deadlock, panic, poison, C03 at quiescence, linearizability against sequential executions of the real code, append conservation",
             "controlled-scheduler schedule search + linearizability check", "4 C04"),
-    "C05": ("exploration", "abs() against an independent reference resolver under varied cwd/HOME, and every other method executed with respelled arguments next to a twin instance that receives the canonical spelling (outcomes and states must coincide)",
+    "C05": ("exploration", "abs() against an independent reference resolver under varied cwd/HOME, and every other method executed with respelled arguments next to a twin instance that receives the canonical spelling (outcomes and states must coincide), on Memfs and - in two sibling tmpfs sandboxes - on Stdfs",
             "seeded simulation, metamorphic twin execution", "4 C05"),
-    "C06": ("exploration", "content profile (write/append/line helpers/handles/copy/move) with all data kinds and handle faults F1-F4 against a byte-vector model",
+    "C06": ("exploration", "content profile (write/append/line helpers/handles/copy/move) with all data kinds and handle faults F1-F4 against a byte-vector model; DIFF leg: the same operations on Stdfs and Memfs with an independent std::fs reader",
             "seeded simulation with handle-lifecycle fault injection, byte-vector model", "4 C06"),
-    "C07": ("fault_enumeration", "handles as actors: read/seek sequences mirrored on a cursor model; write/append handles dropped at every point of their write sequence (flush / drop / drop by unwinding, file removed, replaced or moved meanwhile)",
+    "C07": ("fault_enumeration", "handles as actors: read/seek sequences mirrored on a cursor model; write/append handles dropped at every point of their write sequence: for generated chunkings every prefix x {drop, drop by unwinding} x {file untouched, removed, replaced by a directory, replaced by a new file, moved} x {write, append} is executed and judged",
             "drop-point fault injection inside seeded histories", "4 C07"),
-    "C08": ("exploration", "entries() option cross-product under simulator-chosen enumeration order and descriptor cap on trees with links, cycles and dangling links; multiset + stated order constraints from an independent traversal of the model; listing helpers strict",
+    "C08": ("exploration", "entries() option cross-product under simulator-chosen enumeration order and descriptor cap on trees with links, cycles and dangling links; multiset + stated order constraints from an independent traversal of the model; listing helpers strict; DIFF leg on Stdfs",
             "seeded simulation with enumeration-order / descriptor-cap injection", "4 C08"),
-    "C09": ("exploration", "copy / copy_b (all Copier options) / move_p on generated trees and path pairs (nested, conflicting, links), pre/post state judged by the model; failed move leaves the state identical",
+    "C09": ("exploration", "copy / copy_b (all Copier options) / move_p on generated trees and path pairs (nested, conflicting, links), pre/post state judged by the model; failed move leaves the state identical; DIFF leg on Stdfs",
             "seeded simulation, pre/post snapshot oracle", "4 C09"),
-    "C10": ("exploration", "link laws after every symlink and on every query in link-bearing histories (readlink/readlink_abs, link exclusion, kind at creation, remove/chmod/chown act on the link, follow swaps once)",
+    "C10": ("exploration", "link laws after every symlink and on every query in link-bearing histories (readlink/readlink_abs, link exclusion, kind at creation, remove/chmod/chown act on the link, follow swaps once); DIFF leg on Stdfs incl. dangling targets",
             "seeded simulation, reference model of link semantics", "4 C10"),
-    "C11": ("exploration", "chmod / chmod_b (all options, generated well-formed and malformed expressions) and chown / chown_b against an independent evaluator of the documented grammar and a which-entries-changed oracle",
+    "C11": ("exploration", "chmod / chmod_b (all options, generated well-formed and malformed expressions) and chown / chown_b against an independent evaluator of the documented grammar and a which-entries-changed oracle; DIFF leg on Stdfs",
             "seeded simulation, independent grammar evaluator", "4 C11"),
     "C12": ("exploration", "hostile-client profile on Memfs: adversarial arguments in the middle of ordinary histories; outcome must be Ok/Err (no panic, watchdog for hangs) and a liveness probe plus poison flag after every failing call. Only the Memfs clause is decided (helpers only as reached through Memfs)",
             "seeded simulation with hostile-argument injection, watchdog", "4 C12"),
-    "C13": ("exploration", "every generated history executed in lock step directly and through Vfs / VfsEntry; transcripts (values, error kinds, entry accessors before/after follow) and states must be identical",
+    "C13": ("exploration", "every generated history executed in lock step directly and through Vfs / VfsEntry; transcripts (values, error kinds) and states must be identical; every VfsEntry is read through the enum and through the wrapped value across follow(true)/follow(false)/follow(true); the Vfs::Stdfs arms run against Stdfs in two sibling sandboxes",
             "seeded simulation, lock-step transcript comparison", "4 C13"),
     "C17": ("exploration", "per-run environment table (unset/empty/plain/with separators) installed in the worker process; templates through sys::expand and abs() judged by a reference expander",
             "configuration swarm under the environment seam", "4 C17"),
     "C18": ("exploration", "per-run XDG/HOME/PATH/SUDO environment + filesystem state; user::* lookups, getrids and config_dir(name) on Memfs and Stdfs judged by a reference lookup",
             "configuration swarm under the environment seam", "4 C18"),
-    "C20": ("exploration", "every assert_vfs_* macro invoked at random points of generated histories under catch_unwind; panic/no-panic, message and effect judged by the model predicate",
+    "C20": ("exploration", "every assert_vfs_* macro invoked at random points of generated histories under catch_unwind; panic/no-panic, message and effect judged by the model predicate; DIFF leg: same macros on Stdfs and Memfs",
             "seeded simulation, model predicate per macro", "4 C20"),
 }
 
